@@ -45,6 +45,15 @@ func TestWriteCorpus(t *testing.T) {
 	d.Actions = []ActionDef{{Code: 59, Action: "octave_up"}}
 	write("C04", "octave-11-int8-wrap", "regression: int(d.octave*12) wrapped in int8 at octave 11 (fixed: 2a411be)", KeyCase{D: d, Steps: append(tap(32), tap(30)...), NoLogs: true})
 
+	// C01: mapping switched while a key-emulating axis is deflected
+	d = simple("off")
+	d.Actions = []ActionDef{{Code: 59, Action: "mapping_up"}}
+	d.Mappings[0].AnalogSubs = []AnalogSub{{Sub: "", Default: floatp(0)}}
+	d.Mappings[0].Axes = []AxisDef{{Code: 0x10, Type: "key", Note: intp(50), NoteNeg: intp(52), Min: -1, Max: 1}}
+	d.Mappings = append(d.Mappings, MappingDef{Name: "Other", KeySubs: []string{""}, Keys: []KeyDef{{Code: 30, Note: 61}}})
+	write("C01", "mapping-switch-while-axis-deflected", "regression: the emulated key of an axis stayed sounding when the mapping was switched to one that does not map the axis (fixed: 505f4a1)",
+		KeyCase{D: d, Steps: append(append([]Step{{T: "abs", Code: 0x10, Val: 1}}, tap(59)...), Step{T: "abs", Code: 0x10, Val: 0}, Step{T: "key", Code: 30, Val: 1}, Step{T: "key", Code: 30, Val: 0}), NoLogs: true})
+
 	// C05: default channel 0 + panic
 	d = simple("off")
 	d.Channel = 0
